@@ -107,11 +107,26 @@ def gen_recipe(rng: Rng, tier: str, idx: int) -> dict:
         inits[-1]["share_with"] = j
         if rng.chance(0.6):
             inits[-1]["where"] = inits[j]["where"]  # else: one tensor object under initializers of two different graphs
+    # initializer names are unique per graph only: let some names collide across graphs
+    for i, e in enumerate(inits):
+        if i and rng.chance(0.12):
+            other = inits[rng.below(i)]
+            if other["where"] != e["where"] and all(x["name"] != other["name"] for x in inits if x["where"] == e["where"]):
+                e["name"] = other["name"]
     n_uninit = rng.weighted([(0, 12), (1, 2), (2, 1)])
     uninit = []
     for u in range(n_uninit):
-        uninit.append({"name": f"u_{u}", "pos": rng.below(n + 1),
-                       "where": rng.weighted([("main", 5), ("then", 2), ("else", 1), ("loop", 2)])})
+        where = rng.weighted([("main", 5), ("then", 2), ("else", 1), ("loop", 2)])
+        name = f"u_{u}"
+        twins = [x["name"] for x in inits if x["where"] != where and all(y["name"] != x["name"] for y in inits if y["where"] == where)]
+        if twins and rng.chance(0.5):
+            name = rng.choice(twins)  # same name as an *initialized* initializer of another graph
+        elif rng.chance(0.5):
+            # ... or give it an initialized twin of the same name in another graph (visited before or after it)
+            g2 = rng.choice([g for g in ("main", "then", "else", "loop") if g != where])
+            inits.append({"name": name, "dtype": "FLOAT", "shape": [3], "kind": "np", "where": g2, "fill": rng.u64() & 0xFFFFFFFF,
+                          "as_input": False, "used": rng.chance(0.5), "as_output": False, "meta": False})
+        uninit.append({"name": name, "pos": rng.below(n + 1), "where": where})
     fname = rng.choice(["model.onnx", "m.onnx", "model.v2.onnx", "net", "a.b.c.onnx", "model.textproto", "weights.data",
                         "mod\u00e8le v1.onnx"])
     cfg = {
